@@ -235,6 +235,8 @@ pub const MUTATORS: &[&str] = &[
     "< sub",
     "printf '\\xff\\xfe\\n'",
     "echo visible_c12",
+    "exec -a othername xtrue",
+    "exec xtrue",
 ];
 
 pub const PROCESS_WIDE: &[&str] = &["umask 077", "ulimit -S -n 768"];
